@@ -108,7 +108,8 @@ def substitution_loops(run, F, E, label):
                        key='the substitution loop reached from R_::%s has more than one guard round per iteration' % root_name)
             if root_name == 'initialEnter':
                 c = cfgmod.cfg_of(root)
-                pre = [n for n in c.events(('call',)) if n.e.get('m') == 'cancelledByEntryGuards' and not c.in_loop(n)]
+                # a guard round = a GuardControl constructed here or in a callee (whether the helper exists or its body is written out)
+                pre = [n for n in anchors.guard_round_sites(F, E, root, c) if not c.in_loop(n)]
                 own_loop = any(fn is root for fn, st in found)
                 want = 1
                 run.ob('C04.a', 'R_::initialEnter evaluates the initial state\'s entry guards exactly once before the redirect loop [%s]' % label,
